@@ -845,6 +845,8 @@ def process(ctx, cnt, exe, tree, ops, tag, origin, samples, pending_model, stats
     nontrivial = any(o['k'] in ('require', 'require_private', 'load') for o in ops)
     cnt.case([tree.cfg, ops], nontrivial=nontrivial)
     cnt.hit('history:%s' % verdict)
+    if verdict == 'outside':
+        cnt.hit('outside:' + re.sub(r' [A-Za-z0-9_]+-[0-9.]+ ', ' <dep> ', detail))
     cnt.hit('history:len=%d' % min(len(ops), 16))
     cnt.hit('dirs=%d' % len(tree.cfg['dirs']))
     cnt.hit('env:%s' % ('set' if tree.cfg['env'] is not None else 'unset'))
